@@ -57,6 +57,7 @@ def _m3d(job):
     go = emg3d.TensorMesh([np.diff(a).astype(float) for a in xo],
                           [float(a[0]) for a in xo])
     ni, no = gi.shape_cells, go.shape_cells
+    same_grid = bool(gi == go)
 
     def entries(mat):
         ent = []
@@ -113,6 +114,30 @@ def _m3d(job):
             obs.append("interpolate_to_grid depends on extrapolate")
     except ValueError as e:
         obs.append(f"interpolate_to_grid(extrapolate=False): {e}"[:120])
+    if not same_grid:
+        # options given to Model.interpolate_to_grid are honoured: linear
+        # averaging on request is the matrix checked above
+        ml = emg3d.Model(gi, v, mapping='Conductivity').interpolate_to_grid(
+            go, log=False)
+        if not np.allclose(ml.property_x.ravel('F'), M @ v.ravel('F'),
+                           rtol=1e-13, atol=0):
+            obs.append("interpolate_to_grid(log=False) is not the linear "
+                       "volume average")
+        # the result belongs to the CURRENT values of the model: edited in
+        # place / through the setter after a first interpolation
+        mdl = emg3d.Model(gi, v.copy(), mapping='Conductivity')
+        _ = mdl.interpolate_to_grid(go)
+        v2 = v*10**rng.uniform(-0.5, 0.5, ni)
+        if seed % 2:
+            mdl.property_x[...] = v2
+        else:
+            mdl.property_x = v2
+        again = mdl.interpolate_to_grid(go)
+        fresh = emg3d.Model(gi, v2, mapping='Conductivity'
+                            ).interpolate_to_grid(go)
+        if not np.array_equal(again.property_x, fresh.property_x):
+            obs.append("interpolate_to_grid after an update of the model "
+                       "returns the interpolation of the old values")
     if not np.allclose(mc.property_x, 1.0/mr.property_x, rtol=1e-12,
                        atol=0):
         obs.append("interpolate_to_grid differs between resistivity and "
@@ -155,7 +180,51 @@ def _m3d(job):
 
 
 def key_of(x):
-    return f"{x['kind']}:{x.get('src', '')}:xi={x['xi']};xo={x['xo']}"
+    return f"{x['kind']}:{x.get('src', '')}:xi={x['xi']};xo={x['xo']}" + (f";seed={x['seed']}" if "seed" in x else "")
+
+
+def _adj(seed):
+    """Simulation.gradient through a computational grid of the SAME SHAPE as
+    the model grid (other widths): <x, grad> = <P x, grad on the comp. grid>
+    with P the linear volume average (whose matrix TLC checks above)."""
+    import warnings
+    warnings.filterwarnings("ignore")
+    import numpy as np
+    import emg3d
+    from emg3d import maps
+    from . import sens
+    job = dict(seed=seed, case="isotropic", mapping="Conductivity",
+               layout="1x2", src=["ed", "ed"], rec=["e", "m", "e"],
+               rel=[False, False, False], obs="full", noise="scalar")
+    case = sens.Case(job).prepare()
+    notes = []
+    sa = case.simulation(gridding="input")
+    ga = np.asarray(sa.gradient)
+    src, freq = sa._srcfreq[0]
+    gridc = sa.get_grid(src, freq)
+    if gridc.shape_cells != case.grid.shape_cells or gridc == case.grid:
+        notes.append("harness: grids not of the same shape / not different")
+    cm = sa.get_model(src, freq)
+    sb = emg3d.Simulation(
+        case.survey(), emg3d.Model(gridc, cm.property_x.copy(),
+                                   mapping="Conductivity"),
+        max_workers=1, gridding='same', receiver_interpolation='linear',
+        tqdm_opts={'disable': True}, verb=-1,
+        solver_opts={'tol': 1e-10, 'tol_gradient': 1e-10, 'maxit': 200,
+                     'sslsolver': False, 'semicoarsening': True,
+                     'linerelaxation': True})
+    gb = np.asarray(sb.gradient)
+    rng = np.random.default_rng(seed)
+    for _ in range(4):
+        x = rng.standard_normal(case.grid.shape_cells)
+        px = maps.interpolate(case.grid, x, gridc, method='volume',
+                              log=False, extrapolate=True)
+        lhs, rhs = float(np.sum(x*ga)), float(np.sum(px*gb))
+        if not abs(lhs - rhs) <= 1e-6*max(abs(lhs), abs(rhs)):
+            notes.append(f"<x, gradient> = {lhs:.8e}, <P x, gradient on the "
+                         f"computational grid> = {rhs:.8e}")
+    return [{"kind": "adj", "obs": not notes, "notes": notes, "seed": seed,
+             "xi": [], "xo": []}]
 
 
 def for_tlc(x):
@@ -209,7 +278,10 @@ def run(tier, replay=None):
         with mp.get_context("fork").Pool(C.NCPU) as pool:
             r1 = pool.map(_w1d, chunks)
             r3 = pool.map(_m3d, jobs3, chunksize=1)
-        insts = [x for ch in r1 for x in ch] + [x for ch in r3 for x in ch]
+            ra = pool.map(_adj, [rng.randrange(10**6) for _ in range(
+                3 if tier == "quick" else 24)], chunksize=1)
+        insts = [x for ch in r1 for x in ch] + [x for ch in r3 for x in ch] \
+            + [x for ch in ra for x in ch]
     # discretize outside the common region is not claimed by the property
     use = [x for x in insts if not (x.get("src") == "discretize"
                                     and not x.get("same_region"))]
